@@ -7,8 +7,9 @@ ALL = ["C%02d" % i for i in range(1, 21)]
 def main():
     sys.path.insert(0, build.VERIF)
     checks, claimed = [], set()
+    claimed_list = json.load(open(os.path.join(build.VERIF, "vlib", "claimed.json")))
     for pid in ALL:
-        if not os.path.exists(os.path.join(build.VERIF, "props", pid + ".py")):
+        if pid not in claimed_list:
             continue
         m = importlib.import_module("props." + pid)
         if getattr(m, "NOT_CLAIMED", None):
